@@ -139,8 +139,11 @@ def summaries(log):
         return cx.Obj('TensorMesh', dict(shape_cells=(z3.Int('g0'), z3.Int('g1'), z3.Int('g2'))))
 
     def get_responses(it, args, kw, node):
-        self, src, freq = args[0], args[1], args[2]
-        ef = args[3] if len(args) > 3 else kw.get('efield')
+        # effective parameters by name (positional and keyword forms are the same call)
+        names = ['self', 'source', 'frequency', 'efield']
+        b = dict(zip(names, args))
+        b.update(kw)
+        self, src, freq, ef = b['self'], b['source'], b['frequency'], b.get('efield')
         if ef is None:
             ef = self.fields['_dict_efield'][src][freq]
         r = cx.NDArr(cx.Store('responses'))
